@@ -418,6 +418,25 @@ class SimReactor(object):
             else:
                 self._io_one(obj)
 
+    def run_pass(self, chooser=None):
+        """One reactor iteration before it looks at the network: the thread queue, then the timed calls that are due NOW in
+        the order the chooser picks - not the ones these calls schedule (a callLater(0) made during the pass runs in the next
+        iteration, after the sockets have been looked at)."""
+        self.flush_threads()
+        batch = list(self.due())
+        while batch:
+            live = [d for d in batch if d in self._calls]
+            if not live:
+                break
+            if len(live) > 1:
+                self.choices.append(len(live))
+                i = chooser([('timer', d) for d in live]) if chooser else 0
+            else:
+                i = 0
+            d = live[i]
+            batch.remove(d)
+            self.fire(d)
+
     def step_one(self, chooser=None):
         """Sub-instant granularity: run ONE ready item (the clock moves to the next timer when nothing is due now) and leave
         whatever else is due at this instant pending.  Reactor iterations are separate - a zero-delay call runs in the next
